@@ -8,7 +8,7 @@ and at blocks clang marks no-return.
 """
 from collections import deque
 
-from facts import CALL_KINDS, show, walk
+from facts import CALL_KINDS, show, walk, AnalysisBroken
 
 TERMINATING = {"throw_exp", "messageAbort", "exit", "abort", "std::abort", "std::exit", "std::terminate"}
 
@@ -71,9 +71,9 @@ class CFG:
         if tc is None or tc < 0:
             return None
         n = self.nodes.get(tc)
-        if self.blocks[b].get("t") != "BinaryOperator":
-            while n is not None and n["k"] == "BinOp" and n.get("op") in ("&&", "||"):
-                n = n["c"][1]
+        # (for a `&&` / `||` terminator the recorded condition is its left operand, itself possibly a chain)
+        while n is not None and n["k"] == "BinOp" and n.get("op") in ("&&", "||"):
+            n = n["c"][1]
         return n
 
     # ---- generic search ------------------------------------------------------------------
@@ -166,13 +166,17 @@ class CFG:
         for x in walk(core):
             k = x["k"]
             if k == "DeclRefExpr":
-                if x.get("dk") == "enum":
-                    continue
+                if x.get("dk") in ("enum", "smember"):
+                    continue          # enumerators / static constant members (EStatOption::VAR ...)
                 if x.get("d") not in st:
                     return None
             elif k in ("Int", "Float", "Bool", "BinOp", "UnOp", "Null", "Cast"):
                 if k == "UnOp" and x.get("op") not in ("!", "-"):
                     return None
+            elif k == "OpCall" and x.get("op") in ("==", "!=") and len(x.get("c") or []) == 2:
+                pass          # comparison of enum-like objects (operator== of the AEnum classes): pure
+            elif k == "DeclRefExpr":
+                pass
             else:
                 return None
         return show(core)
@@ -222,6 +226,88 @@ class CFG:
                 return None
             seen[key] = truth
         return wit
+
+    def stable_keys_in_use(self, min_blocks=2):
+        """stable condition keys tested in at least `min_blocks` blocks (candidates for case analysis)"""
+        cnt = {}
+        for b in self.blocks.values():
+            if len(b["s"]) != 2:
+                continue
+            c = self.cond(b["b"])
+            if c is None:
+                continue
+            core, pol = peel_cond(c)
+            k = self.stable_key(core)
+            if k:
+                cnt[k] = cnt.get(k, 0) + 1
+        return sorted(k for k, v in cnt.items() if v >= min_blocks)
+
+    def path_through(self, via_node, is_barrier=None, edge_ok=None, exit_pred=None, max_keys=8):
+        """a complete path entry -> via_node -> exit (no barrier element after via_node), consistent on the repeated stable
+        conditions: by case analysis over every truth assignment of those conditions.  exit_pred(return node or None)
+        selects the exits that count.  Returns (witness of the suffix, assumption) or None."""
+        import itertools
+        p = self.pos_of(via_node)
+        if p is None:
+            return None
+        vid = self.blocks[p[0]]["e"][p[1]]
+        # relevant conditions: tested both before the site (blocks that reach it) and after it (blocks it reaches)
+        def reach(start, fwd):
+            seen, work = set(), [start]
+            while work:
+                b = work.pop()
+                if b in seen:
+                    continue
+                seen.add(b)
+                if fwd:
+                    work += [s for s in self.blocks[b]["s"] if s is not None]
+                else:
+                    work += [a for a, blk in self.blocks.items() if b in blk["s"]]
+            return seen
+
+        def keys_of(blocks):
+            out = set()
+            for b in blocks:
+                blk = self.blocks[b]
+                if len(blk["s"]) != 2:
+                    continue
+                c = self.cond(b)
+                if c is None:
+                    continue
+                k = self.stable_key(peel_cond(c)[0])
+                if k:
+                    out.add(k)
+            return out
+        keys = sorted(keys_of(reach(p[0], False)) & keys_of(reach(p[0], True)))
+        if len(keys) > max_keys:
+            raise AnalysisBroken("path_through: %d repeated conditions around %s (limit %d)" % (len(keys), via_node.get("i"), max_keys))
+
+        def exclusive_ok(assume):
+            # `x == A` and `x == B` with different constants are never both true
+            byl = {}
+            for k, v in assume.items():
+                if v and " == " in k and "||" not in k and "&&" not in k:
+                    l, r = k.split(" == ", 1)
+                    if l in byl and byl[l] != r:
+                        return False
+                    byl[l] = r
+            return True
+
+        def is_exit_ret(n):
+            return n["k"] == "Return" and (exit_pred is None or exit_pred(n))
+        for vals in itertools.product((True, False), repeat=len(keys)):
+            assume = dict(zip(keys, vals))
+            if not exclusive_ok(assume):
+                continue
+            pre = self.search_consistent(self.entry_pos(), is_target=lambda n: n["i"] == vid, edge_ok=edge_ok, _assume=assume)
+            if pre is None:
+                continue
+            suf = self.search_consistent((p[0], p[1] + 1), is_target=is_exit_ret, is_barrier=is_barrier, edge_ok=edge_ok, _assume=assume)
+            if suf is None and exit_pred is None:
+                suf = self.search_consistent((p[0], p[1] + 1), to_exit=True, is_barrier=is_barrier, edge_ok=edge_ok, _assume=assume)
+            if suf is not None:
+                return suf, assume
+        return None
 
     def implied_at(self, node):
         """stable conditions whose value is forced on every path from the entry to `node`"""
